@@ -153,8 +153,12 @@ def run(rec):
                     fid_err = 1 - abs(np.vdot(nd.ravel(), v.ravel())) ** 2
                     rec.check(fid_err <= 2 * err.eps + 1e-9, 'compress_svd:error-bound',
                               f'1-|<psi|psi_c>|^2 = {fid_err} > 2*reported eps {err.eps}', dict(inp, chi=chi))
-                # ---- spatial inversion
+                # ---- spatial inversion (from a uniform form, and from site-dependent canonical forms)
                 psi = psi0.copy()
+                if rep % 2 == 1:
+                    forms = [str(rng.choice(['A', 'B', 'C', 'G', 'Th'])) for _ in range(L)]
+                    psi.convert_form(forms)
+                    inp = dict(inp, forms=forms)
                 ok, _ = rec.guarded('spatial_inversion:exception', lambda: psi.spatial_inversion(), inp)
                 if ok:
                     exp = np.transpose(v, list(range(L))[::-1])
